@@ -32,6 +32,7 @@ type cpCase struct {
 	Via         string `json:"via"`       // runner | scheduler
 	Twice       bool   `json:"twice"`
 	Timeout     bool   `json:"timeout,omitempty"`     // the tasks carry a (long) timeout of their own
+	Allow       bool   `json:"allow,omitempty"`       // the tasks have allow_failure: true (tolerates failing commands; an interrupted command is not a tolerated failure)
 	Interactive bool   `json:"interactive,omitempty"` // the tasks are `interactive: true` and the process's stdin is an open pipe nobody writes to
 	ID          int    `json:"id"`
 }
@@ -128,6 +129,7 @@ func cancelChild() {
 			t.Timeout = &d
 		}
 		t.Interactive = c.Interactive
+		t.AllowFailure = c.Allow
 		switch c.At {
 		case "before":
 			t.Before = []string{fmt.Sprintf("echo %s.b.TRIGGER; %s", t.Name, sleep)}
@@ -309,7 +311,7 @@ func cancelProcUnit(res *common.Result) {
 			return false
 		}
 		res.Evaluations++
-		distinct[fmt.Sprint(c.InFlight, c.Waiting, c.At, c.Via, c.Twice, c.Timeout, c.Interactive)] = true
+		distinct[fmt.Sprint(c.InFlight, c.Waiting, c.At, c.Via, c.Twice, c.Timeout, c.Interactive, c.Allow)] = true
 		if res.Evaluations%7 == 1 {
 			res.AddSample(c)
 		}
@@ -327,7 +329,7 @@ func cancelProcUnit(res *common.Result) {
 			return false
 		}
 		parts := strings.SplitN(d, ":", 3)
-		return res.AddViolation(common.Violation{Property: "C12", Key: fmt.Sprintf("C12:%s|inflight=%d|waiting=%d|at=%s|via=%s|twice=%v|timeout=%v|interactive=%v", parts[1], c.InFlight, c.Waiting, c.At, c.Via, c.Twice, c.Timeout, c.Interactive), Desc: fmt.Sprintf("%+v: %s", c, parts[2]), Config: c},
+		return res.AddViolation(common.Violation{Property: "C12", Key: fmt.Sprintf("C12:%s|inflight=%d|waiting=%d|at=%s|via=%s|twice=%v|timeout=%v|interactive=%v|allow=%v", parts[1], c.InFlight, c.Waiting, c.At, c.Via, c.Twice, c.Timeout, c.Interactive, c.Allow), Desc: fmt.Sprintf("%+v: %s", c, parts[2]), Config: c},
 			map[string]interface{}{"harness": "taskrun", "mode": "plain", "property": "C12", "cp": c})
 	}
 	maxIn := 2
@@ -359,6 +361,10 @@ func cancelProcUnit(res *common.Result) {
 						}
 						if n > 0 && !twice && w <= 1 && at != "start" && at != "after" {
 							if do(cpCase{InFlight: n, Waiting: w, At: at, Via: via, Timeout: true}) {
+								return
+							}
+							// allow_failure, alone and together with a timeout
+							if n <= 2 && (do(cpCase{InFlight: n, Waiting: w, At: at, Via: via, Allow: true}) || do(cpCase{InFlight: n, Waiting: w, At: at, Via: via, Allow: true, Timeout: true})) {
 								return
 							}
 						}
